@@ -1,4 +1,5 @@
 import NibabelModel.Model.C10
+import NibabelModel.Model.C10_Mem
 import NibabelModel.Generated.C10Layouts
 import NibabelModel.Generated.C10Codes
 import Driver.Util
@@ -16,6 +17,12 @@ import Driver.Util
     world <cls> <e> <hex> <script>       objects and buffers: script = comma list of c<i> (copy), y<i> (as_byteswapped),
                                          s<i>:<field>:<p0>/<p1>/.. (obj_i[field] = items); bytes of every object at the end
     fhpix <f32|f64> <ndim> <p0,..,p7>    pixdim of from_header(src) for another class of the same float width
+    mem   <cls> <native> <script>        memory cells, caller-side containers and headers (Model/C10_Mem): script = comma list of
+                                         A<w>:<hex> (new container, w = writable 0/1), V<b>:<ro> (view of container b),
+                                         P<b>:<off>:<hex> (write through b), C<b>:<e|?> (Klass(b, e)), F<b>:<off>:<e|?>
+                                         (from_fileobj at off), B<h> (h.binaryblock as a new container), S<h>:<field>:<p0>/..,
+                                         K<h> (copy), H<h> (same-class from_header), Y<h>:<to|_> (as_byteswapped), X<h>
+                                         (check_fix); output: per step the objects created or changed, with their bytes
     pfix  <cls> <e> <glob> <l1,l2,..> <hex>   the PUBLIC hdr.check_fix(error_level=l_i) called in sequence on one object
                                          (l_i = integer or N = None -> imageglobals.error_level = <glob>): per call
                                          raised index / logged reports / bytes; then check_only, Klass(bytes, check=True)
@@ -216,7 +223,118 @@ def handleWorld (c : ClsSpec) (L : Layout) (e : Endian) (bs0 : List Byte) (scrip
   | none, _ => "ERR:WrapStructError"
   | _, none => "bad-op"
 
+/-! ### mem: histories over memory cells, caller-side containers and headers -/
+
+/-- the class instance of `Model/C10_Mem.Klass` for a generated class -/
+def klassOf (c : ClsSpec) (L : Layout) (native : Endian) : Klass where
+  L := L
+  norm := fun e bs => (ctorBytes c L bs).map (fun bs => serialize L e (ctorVals c L e bs))
+  guess := fun bs => if isMgh c then some .be else (ctorBytes c L bs).bind (guessEndian L c.guess native)
+  fix := fun e bs => (checkFixBytes c L e bs).1
+
+/-- `none` = ill-formed token; endianness arguments are spelled like in the API -/
+def parseMemE? (c : ClsSpec) (s : String) : Option (Option Endian) :=
+  if isMgh c then (if s = "?" ∨ endianOf? Gen.endianAliases s = some .be then some (some .be) else none)
+  else if s = "?" then some none
+  else (endianOf? Gen.endianAliases s).map some
+
+def parseMOp? (c : ClsSpec) (t : String) : Option MOp :=
+  match t.toList with
+  | 'A' :: r =>
+      match (String.ofList r).splitOn ":" with
+      | [w, hex] => match parseHex? hex with
+          | some bs => if w = "1" then some (.alloc true bs) else if w = "0" then some (.alloc false bs) else none
+          | none => none
+      | _ => none
+  | 'V' :: r =>
+      match (String.ofList r).splitOn ":" with
+      | [b, ro] => match b.toNat? with
+          | some b => if ro = "1" then some (.view b true) else if ro = "0" then some (.view b false) else none
+          | none => none
+      | _ => none
+  | 'P' :: r =>
+      match (String.ofList r).splitOn ":" with
+      | [b, off, hex] => match b.toNat?, off.toNat?, parseHex? hex with
+          | some b, some off, some bs => some (.poke b off bs)
+          | _, _, _ => none
+      | _ => none
+  | 'C' :: r =>
+      match (String.ofList r).splitOn ":" with
+      | [b, e] => match b.toNat?, parseMemE? c e with
+          | some b, some e => some (.ctor b e)
+          | _, _ => none
+      | _ => none
+  | 'F' :: r =>
+      match (String.ofList r).splitOn ":" with
+      | [b, off, e] => match b.toNat?, off.toNat?, parseMemE? c e with
+          | some b, some off, some e => if isMgh c then none else some (.fromFile b off e)
+          | _, _, _ => none
+      | _ => none
+  | 'B' :: r => (String.ofList r).toNat?.map .snap
+  | 'K' :: r => (String.ofList r).toNat?.map .copy
+  | 'H' :: r => (String.ofList r).toNat?.map .copy
+  | 'X' :: r => (String.ofList r).toNat?.map .fix
+  | 'Y' :: r =>
+      match (String.ofList r).splitOn ":" with
+      | [h, to] => match h.toNat? with
+          | some h =>
+              if to = "_" then (if isMgh c then none else some (.swapTo h none))
+              else match endianOf? Gen.endianAliases to with
+                | some t => if isMgh c && t != .be then none else some (.swapTo h (some t))
+                | none => none
+          | none => none
+      | _ => none
+  | 'S' :: r =>
+      match (String.ofList r).splitOn ":" with
+      | [i, name, v] =>
+          match i.toNat?, (v.splitOn "/").mapM (·.toNat?) with
+          | some i, some v => some (.setf i name v)
+          | _, _ => none
+      | _ => none
+  | _ => none
+
+/-- every object with its observable: containers `b<i>` = bytes, headers `h<i>` = byte order and bytes -/
+def memSnapshot (m : Mem) : List (String × String) :=
+  (List.range m.bufs.length).map (fun i => ("b" ++ toString i, toHex (m.bufBytes i))) ++
+  (List.range m.hdrs.length).map (fun i => ("h" ++ toString i, showEndian (m.hdrE i) ++ ":" ++ toHex (m.hdrBytes i)))
+
+def memDelta (old new : List (String × String)) : String :=
+  let ch := new.filter (fun x => !(old.contains x))
+  if ch.isEmpty then "-" else ";".intercalate (ch.map (fun x => x.1 ++ "=" ++ x.2))
+
+def memOpOk (K : Klass) : MOp → Bool
+  | .setf _ n v =>
+      match K.L.find? n with
+      | some f => v.length == f.n && v.all (fun x => decide (x < 256 ^ f.iw))
+      | none => false
+  | _ => true
+
+def runMem (c : ClsSpec) (K : Klass) : Mem → List MOp → List String → String
+  | _, [], acc => "|".intercalate acc.reverse
+  | m, op :: ops, acc =>
+      if !memOpOk K op then "bad-op" else
+      let over := match op with
+        | .fix h => raisesBytes c K.L (m.hdrE h) (m.hdrBytes h)
+        | _ => false
+      if over then "ERR:OverflowError" else
+      match m.step K op with
+      | none => "|".intercalate (("ERR" :: acc).reverse)
+      | some m1 => runMem c K m1 ops (memDelta (memSnapshot m) (memSnapshot m1) :: acc)
+
+def handleMem (c : ClsSpec) (L : Layout) (native : Endian) (script : String) : String :=
+  match (script.splitOn ",").mapM (parseMOp? c) with
+  | none => "bad-op"
+  | some ops => runMem c (klassOf c L native) Mem.empty ops []
+
 def handle : List String → String
+  | ["mem", cls, native, script] =>
+      match Gen.classOf? cls, parseEndian? native with
+      | some c, some native =>
+          if native != Gen.nativeCode then "bad-op" else
+          match Gen.layoutOf? c.layout with
+          | some L => handleMem c L native script
+          | none => "bad-op"
+      | _, _ => "bad-op"
   | ["world", cls, e, hex, script] =>
       match Gen.classOf? cls, parseHex? hex with
       | some c, some bs =>
